@@ -143,6 +143,7 @@ func c08EncDoc(symbolic bool) *CandidateNode {
 	inner := vInt("7")
 	inner.Anchor = "in"
 	b := vMap(vStr("c"), vInt(x3), vStr("i"), inner, vStr("j"), &yaml.Node{Kind: yaml.AliasNode, Value: "in", Alias: inner})
+	b.Content[2].Anchor = "ki" // an anchored KEY of the anchored map (and an alias to it below): merged-in entries share nothing with it
 	b.Anchor = "anc"
 	b.FootComment = "foot-b"
 	b.HeadComment = "head-b"
@@ -153,7 +154,7 @@ func c08EncDoc(symbolic bool) *CandidateNode {
 	r := &yaml.Node{Kind: yaml.AliasNode, Value: "anc", Alias: b}
 	r.LineComment = "line-r"
 	m := vMap(vS("!!merge", "<<"), &yaml.Node{Kind: yaml.AliasNode, Value: "anc", Alias: b}, vStr("d"), vInt("4"))
-	root := vMap(vStr("a"), a, vStr("b"), b, vStr("s"), s, vStr("n"), n, vStr("r"), r, vStr("m"), m)
+	root := vMap(vStr("a"), a, vStr("b"), b, vStr("s"), s, vStr("n"), n, vStr("r"), r, vStr("m"), m, vStr("l"), &yaml.Node{Kind: yaml.AliasNode, Value: "ki", Alias: b.Content[2]})
 	root.FootComment = "foot-root"
 	return vDoc(root)
 }
